@@ -75,10 +75,10 @@ def describe(tier):
             "centring_other": "constant chromosomes; extra non-canonical contigs; tables with no autosome-like names; non-default row index; 24 chromosomes (1..22, X, Y)" + ("; 8, 12, 23 chromosomes" if t else ""),
             "sex": (
                 "sex x reference sex x X bins {40,41,64,100,250,400} x Y bins {0,3,10,40} x sd {0.01,0.05,0.1,0.2,0.3} x weights {none,const,saw-tooth} x naming x autosome bins {200,1000,3000} "
-                "x 12 noise arrangements; female Y level {-4,-8,-20}; PAR genome with 10 PAR-X bins"
+                "x 12 noise arrangements; female Y level {-4,-8,-20}; PAR genome with 10 PAR-X bins; 48 noise-free samples (sd 0)"
                 if t
                 else "sex x reference sex x X bins {40,100,400} x Y bins {0,10,40} x sd {0.01,0.1,0.3} x weights {none,saw-tooth} x naming x autosome bins {200,1000} x 6 noise arrangements; "
-                "PAR genome with 10 PAR-X bins on a sub-grid"
+                "PAR genome with 10 PAR-X bins on a sub-grid; 48 noise-free samples (sd 0, all three weight patterns)"
             ),
             "cli": "sex [-y] on 16 written samples; call --center {median,mean,biweight,mode} [--drop-low-coverage] [--diploid-parx-genome] -m none on 6 written tables",
         },
@@ -101,6 +101,7 @@ def describe(tier):
             "DESIGN section 4 rule 6: when the independent biweight / kernel-density-mode model does not give zero on the output, the package's own descriptives.biweight_location / modal_location "
             "(verified by C19) is consulted on the same bins; a zero there defers the difference to C19 (counted as a stratum)",
             "third-party numerics trusted: numpy, scipy.stats.gaussian_kde, scipy.stats.median_test, statistics.NormalDist.inv_cdf",
+            "sd 0 (no noise) is enumerated as the boundary of the statement's 'noise up to sd 0.3' although the quantifier's grid starts at 0.01: it is the only way to reach the documented flat-input fallback (difference of medians, weighted when a weight column exists)",
             "do_sex needs meta['filename'] (arrays read from files have it); samples are built with it",
             "expect_flat_log2 and shift_xx on PAR-X bins with a PAR genome are left open (the statement speaks of X)",
         ],
@@ -245,6 +246,14 @@ def sex_cases(tier):
                         for w in ("none", "ramp"):
                             for male_ref in (False, True):
                                 yield {"check": "sex", "sex": "female", "male_ref": male_ref, "n_auto": 200, "n_x": nx, "n_y": ny, "sd": sd, "weights": w, "style": "", "perms": perms, "y_deep": deep}
+    # noise-free samples: the boundary of "noise up to sd 0.3", where Mood's test degenerates and the code
+    # falls back to the difference of (weighted) medians
+    for w in C.WEIGHT_PATTERNS:
+        for ny in (0, 10):
+            for style in ("", "chr"):
+                for male_ref in (False, True):
+                    for sex in ("female", "male"):
+                        yield {"check": "sex", "sex": sex, "male_ref": male_ref, "n_auto": 200, "n_x": 40, "n_y": ny, "sd": 0.0, "weights": w, "style": style, "perms": [[0, 0]]}
     # PAR genome named, PAR-X bins at the diploid level
     for genome in GENOMES:
         for nx in (40, 100):
@@ -589,6 +598,7 @@ def sex_key(case):
         f"{case['sex']}-sample/{'male' if case['male_ref'] else 'female'}-reference/"
         + ("y-bins" if case["n_y"] else "no-y")
         + ("/par-genome" if case.get("par") else "")
+        + ("/noise-free" if case["sd"] == 0 else "")
         + ("/y-at-null" if case.get("y_deep", -4.0) <= -15 else "")
     )
 
